@@ -4731,7 +4731,7 @@ func (p *Parser) parseDataType() *ast.DataType {
 			if usesNamedParams && (p.currentIs(token.IDENT) || p.current.Token.IsKeyword()) {
 				// Check if current is NOT a type name and peek IS a type name or LPAREN follows for complex types
 				// But NOT if peek is '=' which indicates an expression like max_dynamic_paths=8
-				if !p.isDataTypeName(p.current.Value) && !p.peekIs(token.EQ) {
+				if !p.isDataTypeName(p.current.Value) && !p.peekIs(token.EQ) && !p.peekIs(token.COMMA) && !p.peekIs(token.RPAREN) {
 					// Current is a name (not a type), next should be a type
 					isNamedParam = true
 				} else if !p.peekIs(token.EQ) && (p.peekIs(token.IDENT) || p.peekIs(token.LPAREN)) {
